@@ -309,7 +309,7 @@ func runC10(c *Ctx) {
 				if cm.Dir != types.RecvOnly {
 					continue
 				}
-				role := chanRole(cm.Chan)
+				role := chanRoleIn(rf, cm.Instr, cm.Chan)
 				if role == doneRole && cm.Sel != nil && !cm.Sel.Blocking {
 					if pre == nil || domU(cm.Sel, pre) {
 						pre = cm.Sel
@@ -337,7 +337,7 @@ func runC10(c *Ctx) {
 				}
 				has := false
 				for _, st := range w.Sel.States {
-					if st.Dir == types.RecvOnly && chanRole(st.Chan) == doneRole {
+					if st.Dir == types.RecvOnly && chanRoleIn(rf, w.Sel, st.Chan) == doneRole {
 						has = true
 					}
 				}
@@ -371,14 +371,22 @@ func runC10(c *Ctx) {
 			for pi := range paths {
 				pth := &paths[pi]
 				var doneAt ssa.Instruction
-				for _, in := range pth.Instrs {
+				for idx, in := range pth.Instrs {
+					// an operand inside a shared helper is resolved through the call this path made
+					roleOf := func(v ssa.Value) string {
+						role := chanRole(pth.resolve(v))
+						if site := pth.siteAt(idx); site != nil {
+							withSite(site, func() { role = chanRole(pth.resolve(v)) })
+						}
+						return role
+					}
 					switch x := in.(type) {
 					case *ssa.Select:
-						if k := selCaseOnPath(pth, x); k >= 0 && k < len(x.States) && x.States[k].Dir == types.RecvOnly && chanRole(pth.resolve(x.States[k].Chan)) == doneRole {
+						if k := selCaseOnPath(pth, x); k >= 0 && k < len(x.States) && x.States[k].Dir == types.RecvOnly && roleOf(x.States[k].Chan) == doneRole {
 							doneAt = in
 						}
 					case *ssa.UnOp:
-						if x.Op == token.ARROW && chanRole(pth.resolve(x.X)) == doneRole {
+						if x.Op == token.ARROW && roleOf(x.X) == doneRole {
 							doneAt = in
 						}
 					}
@@ -514,4 +522,22 @@ func delegationPassesError(o *Obligation, rf *ssa.Function) {
 			return
 		}
 	}
+}
+
+// chanRoleIn: the role of a channel operand of an instruction that may sit in a helper shared by several callers
+// (expired(d *deadline.Deadline) called for the read and for the write deadline): resolved through the call made
+// from root's unit.
+func chanRoleIn(root *ssa.Function, in ssa.Instruction, v ssa.Value) string {
+	role := chanRole(v)
+	h := in.Parent()
+	if h == root || curSites == nil || !isPrivateHelper(h) || len(curSites.sites[h]) < 2 {
+		return role
+	}
+	for _, s := range curSites.sites[h] {
+		if s.Parent() == root || isIn(s.Parent(), root) {
+			withSite(s, func() { role = chanRole(v) })
+			return role
+		}
+	}
+	return role
 }
